@@ -26,6 +26,12 @@ meta['missed_by'] = [p for p in a.missed.split(',') if p]
 if a.note:
     meta['note'] = a.note
 json.dump(meta, open(mp, 'w'), indent=1)
+# keep the record small: no binaries, no test logs
+for root, _, files in os.walk(d):
+    for f in files:
+        fp = os.path.join(root, f)
+        if os.path.getsize(fp) > 300_000 or f.startswith('nextest'):
+            os.unlink(fp)
 if not a.keep_worktree:
     wt = '/tmp/seed-%s' % a.id
     subprocess.run(['git', '-C', '/repo', 'worktree', 'remove', '--force', wt])
